@@ -22,8 +22,8 @@ func Run(ctx *common.Ctx) {
 	scope := slip.NewScope()
 	orig := slip.CurrentPackage
 	defer func() { slip.CurrentPackage = orig }()
-	ncases := 250
-	maxLen := 10
+	ncases := 640
+	maxLen := 12
 	if ctx.Thorough() {
 		ncases = 4000
 		maxLen = 14
@@ -91,14 +91,37 @@ func Run(ctx *common.Ctx) {
 			return false
 		}
 		sensible := ctx.Rng.Chance(75)
+		// focus: most operations of a history concern one variable, one function and one exporting
+		// package, so that export / unexport / re-export, several users, own definitions in users
+		// and redefinitions interact within a few steps
+		focus := ctx.Rng.Chance(70)
+		fv, ff, pe := ctx.Rng.Intn(2), ctx.Rng.Intn(2), ctx.Rng.Intn(3)
+		draw := func() (p, q, vn, fn, x int) {
+			p, q, vn, fn, x = ctx.Rng.Intn(3), ctx.Rng.Intn(3), ctx.Rng.Intn(2), ctx.Rng.Intn(2), ctx.Rng.Intn(100)
+			if focus {
+				if ctx.Rng.Chance(85) {
+					vn = fv
+				}
+				if ctx.Rng.Chance(85) {
+					fn = ff
+				}
+				if x >= 12 && x < 33 { // use / unuse: somebody uses the exporter
+					if ctx.Rng.Chance(75) {
+						q = pe
+						p = (pe + 1 + ctx.Rng.Intn(2)) % 3
+					}
+				} else if x >= 33 && x < 60 { // export / unexport on the exporter
+					if ctx.Rng.Chance(80) {
+						p = pe
+					}
+				}
+			}
+			return
+		}
 		for i := 0; i < L; i++ {
 			var lisp, g string
-			p := ctx.Rng.Intn(3)
-			q := ctx.Rng.Intn(3)
-			vn := ctx.Rng.Intn(2)
-			fn := ctx.Rng.Intn(2)
+			p, q, vn, fn, x := draw()
 			val++
-			x := ctx.Rng.Intn(100)
 			if sensible {
 				// re-draw a few times until the step looks guarded
 				for try := 0; try < 6; try++ {
@@ -133,7 +156,7 @@ func Run(ctx *common.Ctx) {
 					if ok {
 						break
 					}
-					p, q, vn, fn, x = ctx.Rng.Intn(3), ctx.Rng.Intn(3), ctx.Rng.Intn(2), ctx.Rng.Intn(2), ctx.Rng.Intn(100)
+					p, q, vn, fn, x = draw()
 				}
 			}
 			switch {
@@ -235,7 +258,7 @@ func Run(ctx *common.Ctx) {
 		}
 	}
 	ctx.Meta.DistinctNontrivial = len(distinct)
-	ctx.Meta.Rule = "random histories (2..10 ops, thorough 2..14) over 3 fresh packages x {in-package, use-package, unuse-package, export, unexport, setq, defvar, defun, makunbound, fmakunbound} x 2 variable and 2 function names; after every step 84 resolutions (3 current packages x 4 names x {plain, p:, p::} x 3 packages); distinct = distinct op sequences (all have >= 2 ops)"
+	ctx.Meta.Rule = "random histories (2..12 ops, thorough 2..14; 70% focused on one variable, one function and one exporting package) over 3 fresh packages x {in-package, use-package, unuse-package, export, unexport, setq, defvar, defun, makunbound, fmakunbound} x 2 variable and 2 function names; after every step 84 resolutions (3 current packages x 4 names x {plain, p:, p::} x 3 packages); distinct = distinct op sequences (all have >= 2 ops)"
 	header := "From C13 Require Import Model Spec Corr.\nOpen Scope Z_scope.\n"
 	footer := "Definition res := Eval vm_compute in check_all cases.\nPrint res.\n" +
 		"Definition gcount := Eval vm_compute in guard_count cases.\nPrint gcount.\n"
